@@ -22,7 +22,7 @@ def varargout_text(return_type, formatted):
             else '[ varargout{1} varargout{2} ] = ')
 
 
-@spec(rec=True, ret='str', reads=('SEQ',))
+@spec(rec=True, ret='str', reads='tree')
 def varargin_list(n, k):
     """varargin{1}, ..., varargin{k}"""
     if k <= 0:
@@ -49,7 +49,7 @@ def ml_data_type_param(name):
             else 'bool' if name == 'bool' else name)
 
 
-@spec(rec=True, ret='str', reads=TN)
+@spec(rec=True, ret='str', reads='tree')
 def ml_ns_prefix(nss, k, sep):
     """the non-empty namespaces nss[:k], each followed by sep"""
     if k <= 0:
@@ -57,14 +57,14 @@ def ml_ns_prefix(nss, k, sep):
     return ml_ns_prefix(nss, k - 1, sep) + ((nss[k - 1] + sep) if nss[k - 1] != '' else '')
 
 
-@spec(rec=True, ret='str', reads=TN)
+@spec(rec=True, ret='str', reads='tree')
 def ml_args_join(insts, k, incl, ctor, meth):
     if k <= 0:
         return ''
     return ml_args_join(insts, k - 1, incl, ctor, meth) + (',' if k > 1 else '') + ml_type_name(insts[k - 1], '::', incl, ctor, meth)
 
 
-@spec(rec=True, ret='str', reads=TN)
+@spec(rec=True, ret='str', reads='tree')
 def ml_args_cat(insts, k, sep, ctor, meth):
     if k <= 0:
         return ''
@@ -78,7 +78,7 @@ def ml_head(t, sep, incl, ctor, meth):
             + (ml_data_type(t.name) if ctor else (ml_data_type_param(t.name) if meth else t.name)))
 
 
-@spec(rec=True, ret='str', reads=TN)
+@spec(rec=True, ret='str', reads='tree')
 def ml_type_name(t, sep, incl, ctor, meth):
     """spelling of a type name with separator sep: C++ (`::`, template arguments in <,>) or MATLAB
     (`.` / '' with the template arguments appended)"""
@@ -108,7 +108,7 @@ def ml_guard(i, t, ctor):
             + ((' && size(varargin{' + int_str(i) + '},1)==3' + ' && size(varargin{' + int_str(i) + '},2)==1') if t.name == 'Point3' else ''))
 
 
-@spec(rec=True, ret='str', reads=AT)
+@spec(rec=True, ret='str', reads='tree')
 def ml_guards(args, k, ctor):
     """guards of the first k parameters: the i-th guard tests varargin{i} against the i-th declared type"""
     if k <= 0:
@@ -177,7 +177,7 @@ PAD20 = ' ' * 20       # indentation of the statement template inside the source
 ARGR = AT + EN + ('default', 'is_ref', 'is_ptr', 'is_shared_ptr', 'is_const', 'args_list')
 
 
-@spec(rec=True, ret='str', reads=ARGR)
+@spec(rec=True, ret='str', reads='tree')
 def ml_unwrap_body(args, k, id0, c):
     """one statement per explicit parameter: the i-th (1-based) parameter is unwrapped from in[id0 + i - 1]"""
     if k <= 0:
@@ -202,7 +202,7 @@ def ml_call_arg(a, shown, c):
             else ('*' if ml_deref(a.ctype, c) else '') + a.name)
 
 
-@spec(rec=True, ret='str', reads=ARGR)
+@spec(rec=True, ret='str', reads='tree')
 def ml_call_args(full, k, shown, c):
     """the declared parameters full[:k] in order, separated by commas"""
     if k <= 0:
